@@ -175,6 +175,18 @@ func (nd *vNode) Hold() {
 	synctest.Wait()
 }
 
+// ReleaseNoWait lets the drainer go again without waiting for quiescence: what was parked continues only when the caller
+// next blocks or waits (used to stop a node whose goroutines are still parked behind a full transmit queue).
+func (nd *vNode) ReleaseNoWait() {
+	nd.mu.Lock()
+	nd.held = false
+	nd.mu.Unlock()
+	select {
+	case nd.kick <- struct{}{}:
+	default:
+	}
+}
+
 func (nd *vNode) Release() {
 	if nd.kick == nil {
 		panic("verif: vNode without kick channel")
